@@ -24,6 +24,7 @@ def main():
     nshards, n = (16, 200) if tier == "quick" else (32, 2000)
     jobs = [dict(seed="%d/%s/%d" % (common.seed(), PROP, s), n=n, scripts=(2 if tier == "quick" else 6)) for s in range(nshards)]
     R = common.Run(PROP, "translation_validation", RULE)
+    boot.spread_pyflags(jobs)
     for job, res, err in shard.run_jobs("vf.checks.C10", "worker", jobs, timeout=3600, nproc=16):
         if err:
             R.inconc("worker %s: %s" % (job["seed"], err))
@@ -113,6 +114,9 @@ def worker(job):
     rt = realrun.attach_real("snarkjs")
     realrun.install_boundary(rt)
     R = common.Run(PROP, "translation_validation", RULE)
+    import sys as _sys
+    if _sys.flags.optimize:
+        R.count("workers_under_python_O%s" % ("O" if _sys.flags.optimize > 1 else ""))
     rnd = random.Random(job["seed"])
     p = rt.backend.get_modulus()
     home = os.getcwd()
@@ -207,7 +211,7 @@ def worker(job):
                       "json.dump(dict(p=_b.get_modulus(), pubvals=[int(v) for v in _b.pubvals], privvals=[int(v) for v in _b.privvals],\n"
                       "    constraints=[[sorted(x.lc.items()) for x in c] for c in _b.constraints]), open('trace.json', 'w'))\n") % (inputs, src)
             open(os.path.join(wd, "prog.py"), "w").write(script)
-            pr = subprocess.run([boot.PY, "prog.py"], cwd=wd, env=boot.child_env({"PYSNARK_BACKEND": "snarkjs"}),
+            pr = subprocess.run([boot.PY] + boot.pyflags() + ["prog.py"], cwd=wd, env=boot.child_env({"PYSNARK_BACKEND": "snarkjs"}),
                                 stdout=subprocess.PIPE, stderr=subprocess.PIPE, timeout=120)
             if pr.returncode != 0 or not os.path.exists(os.path.join(wd, "trace.json")):
                 R.count("script_raised")
